@@ -15,6 +15,7 @@ NOT_DECIDED = "the accept/reject matrix as a function of live sockets; SO_REUSE*
 DECIDED += "; R2 also the converse: wherever Socket::bound is set the binding index is updated in the same function"
 DECIDED += "; R4 also: a SYN for the pair of a Closed connection reaches the listener"
 DECIDED += '; R6 also: a port is allocated in the (domain, type) space it is then bound in'
+DECIDED += '; R7 demultiplexing keys are rebuilt from (ip, port): the remote half of every connection-index key and the connected-UDP peer comparison (no IPv6 scope id / flow label)'
 ASSUMPTIONS = []
 
 K = "turmoil_net::kernel::Kernel::"
